@@ -254,7 +254,7 @@ class LinChecker {
               if (m.seq[i] < 0) { tainted = true; continue; }
               if (M.seqs[static_cast<size_t>(m.seq[i])].tainted) { tainted = true; continue; }
               bool eligible = m.in_seq[i] && M.pos_in(m.seq[i], true, mid) >= 0;
-              if (!eligible) { ++wantn; M.seqs[static_cast<size_t>(m.seq[i])].tainted = true; }
+              if (!eligible) ++wantn;   // reported, and the death still counts: the sequence itself goes on as the model says (C05)
             }
             m.died = true;
             for (int i = 0; i < m.nseq; ++i) if (m.seq[i] >= 0 && m.in_seq[i]) M.retire_until(m.seq[i], true, mid);
